@@ -136,6 +136,14 @@ var rkUniverse = []mspan{
 		{Seq: 8, Kind: base.InternalKeyKindRangeKeyUnset, Suffix: "@1"},
 		{Seq: 2, Kind: base.InternalKeyKindRangeKeyDelete},
 	}},
+	// a RANGEKEYDEL that is NEWER than other keys of its fragment (what a flush writes when a
+	// snapshot sits between them), followed by two older sequence-number groups
+	{"c", "d", []mkey{
+		{Seq: 12, Kind: base.InternalKeyKindRangeKeyDelete},
+		{Seq: 9, Kind: base.InternalKeyKindRangeKeySet, Suffix: "@4", Value: "x"},
+		{Seq: 9, Kind: base.InternalKeyKindRangeKeyUnset, Suffix: "@2"},
+		{Seq: 4, Kind: base.InternalKeyKindRangeKeySet, Suffix: "@4", Value: "old"},
+	}},
 }
 
 // ---------------------------------------------------------------------------------------------
